@@ -34,6 +34,11 @@ CLAIMED = {
             "integer-shift translation are consequences; findActiveSubaps returns exactly the row-major cells with mean>=threshold with "
             "fills=means for symbolic masks/thresholds incl. sizes that are not multiples of the count; computeFillFactor reproduces the fills "
             "when the size is a multiple; make_subaps_2d scatter/read-back identity for every 0/1 mask", "area -> pi r^2 is a limit statement, outside."),
+    "C15": ("5 C15", "on symbolic non-negative images, every feasible path of the threshold / sort branches: single bright pixel -> (x,y) for "
+            "centre_of_gravity and brightest_pixel; invariance under multiplication by k>0 (2-D and stack paths, with and without threshold); "
+            "shift equivariance for content away from the border; stack = each frame alone (as a 1-frame stack; as a 2-D image it is a recorded "
+            "finding for thresholds); quad-cell mirror antisymmetry; correlation centroid = array centre + displacement for padding 2 "
+            "(non-square frames included) and for a single pixel at padding 1; sizes 2x2..4x4, stacks of 2", "larger frames outside (sort forks as n!)."),
     "C17": ("5 C17", "all converters of atmos_conversions and _astronomy: the six inverse pairs (explicit and default wavelength), "
             "composites = compositions, scaling exponents (lambda^(6/5), Cn2^(-3/5), lambda^(-1/5), r0^(-5/3), d^(-1/3)), "
             "single-layer theta0/tau0 = C r0/h with 0.313<C<0.315, axis argument = loop over profiles for rank 1-3 arrays and every "
